@@ -2014,10 +2014,10 @@ class VariableDensityPoissonMaskFunc(BaseMaskFunc):
 
             _poisson(num_rows, num_cols, self.max_attempts, mask, radius_x, radius_y, seed)
 
-            mask = mask | centered_disk_mask((num_rows, num_cols), center_fraction)
-
             if self.crop_corner:
                 mask *= r < 1
+
+            mask = mask | centered_disk_mask((num_rows, num_cols), center_fraction)
 
             actual_acceleration = num_rows * num_cols / mask.sum()
 
